@@ -37,7 +37,7 @@ ASSUMPTIONS = [
     "the simulator's own unit table (peers.UNITS: documented length and force unit per calculator) and CODATA-2018 constants are the reference; differences to phonopy's older CODATA values (~1e-8) are far below the 1e-5 tolerance",
     "peers author the pieces of input that phonopy's writers leave to the user (QE namelists, SIESTA ChemicalSpeciesLabel, TURBOMOLE job directory) exactly as documented",
     "for output formats that carry no atomic positions a permuted/duplicated/stale delivery is undetectable by design; only count and truncation faults are asserted there",
-    "cp2k (needs cp2k-input-tools), wien2k (symmetry-reduced struct/force format) and crystal's structure round trip (its reader parses CRYSTAL output, not the input its writer produces) are excluded from the file-level steps; their unit sets are still checked",
+    "cp2k (needs cp2k-input-tools) and crystal's structure round trip (its reader parses CRYSTAL output, not the input its writer produces) are excluded from the file-level steps; wien2k takes part with structure files only; all unit sets are still checked",
 ]
 FAULT_KINDS = ["permute", "duplicate", "missing", "extra", "truncate", "stale"]
 
